@@ -274,3 +274,18 @@ theorem C07_refused_history_quiet (r : Refuse V) (cfg : Cfg) (hno : cfg.algo ≠
     exact ⟨h2.1, fun j w hb => h2.2 j w (h1.2 j w hb)⟩
 
 end Klepto.C07
+
+namespace Klepto.C07
+open Klepto AMap
+/-- finding F26b in the model: `no_cache` over a refusing archive.  `f(1)` returns a value the archive refuses:
+the dump raises and the entry stays in memory; `f(2)` is evaluated and stored, the dump is refused again; a second
+`f(2)` finds its key in memory, returns it - and clears the memory cache without dumping: the result of `f(2)`
+is now neither in memory nor in the archive (the root is F26: the found-in-memory path of `no_cache`) -/
+def noF : Cfg := { algo := .no, safe := false, maxsize := 0, purge := true }
+theorem C07_refused_no_cache_loses :
+    (runF r99 noF (St.init cF) [.call (mkF 1 99), .call (mkF 2 20), .call (mkF 2 20)]).2
+      = [.raised .typeError 1, .raised .typeError 1, .ret 20 0] ∧
+    retr (runF r99 noF (St.init cF) [.call (mkF 1 99), .call (mkF 2 20)]).1.c 2 = some 20 ∧
+    retr (runF r99 noF (St.init cF) [.call (mkF 1 99), .call (mkF 2 20), .call (mkF 2 20)]).1.c 2 = none := by
+  decide
+end Klepto.C07
